@@ -103,7 +103,10 @@ def scopes_for_owner(owner: NixExpression) -> tuple[Scope, ...]:
     from nix_manipulator.expressions.set import AttributeSet  # type: ignore
 
     if isinstance(owner, AttributeSet) and owner.recursive:
-        scopes.append(_scope_from_attrset(owner, base=tuple(scopes)))
+        # Do not store the chain on the owner itself: it would come back as
+        # "inherited" context on the next call and duplicate the owner's own
+        # let layers, making inner layers visible to outer bindings.
+        scopes.append(_as_scope(owner.values, owner=owner))
 
     from nix_manipulator.expressions.identifier import Identifier  # type: ignore
     from nix_manipulator.expressions.with_statement import WithStatement  # type: ignore
